@@ -51,7 +51,14 @@ func init() {
 func rulePoolUseAfterPut(c *Ctx) {
 	p := c.P
 	n := 0
+	// each property looks only at the packages that produce its output: a use-after-put in the RTSP
+	// writers says nothing about HLS and vice versa
+	scope := map[string][]string{"C10": {"av/format/hls", "service/hls"}, "C13": {"service/rtsp", "service/wsp", "av/format/rtsp", "av/format/rtp"}}[c.Prop]
+	ord := map[string]int{}
 	for _, fn := range p.ModFuncs() {
+		if fn.Pkg == nil || !hasAnyPrefix(strings.TrimPrefix(fn.Pkg.Pkg.Path(), modPath+"/"), scope) {
+			continue
+		}
 		// non-deferred Put calls
 		var puts []*ssa.Call
 		instrs(fn, func(ins ssa.Instruction) {
@@ -118,12 +125,13 @@ func rulePoolUseAfterPut(c *Ctx) {
 			if bad != nil {
 				c.Bad(key, p.InstrPos(bad), "a pooled buffer (or the slice returned by its Bytes()) is used after it was put back into the pool: another goroutine can take and overwrite it while these bytes are still being written")
 			} else {
-				c.OK(key+"#"+p.InstrPos(put), p.InstrPos(put), "no use after Put")
+				ord[key]++
+				c.OK(fmt.Sprintf("%s#%d", key, ord[key]), p.InstrPos(put), "no use after Put")
 			}
 		}
 	}
 	if n == 0 {
-		c.OK("use-after-put", "", "every Pool.Put in the module is deferred (buffer stays reserved until the function returns)")
+		c.OK("use-after-put", "", "every Pool.Put in "+strings.Join(scope, ", ")+" is deferred (buffer stays reserved until the function returns)")
 	}
 }
 
@@ -137,7 +145,12 @@ func ruleNoShortRead(c *Ctx) {
 		{"network/socket/listener", "(*patriciaTree).matchPrefix"}, {"network/socket/listener", "(*patriciaTree).match"},
 		{"service/rtsp", "receive"},
 	}
+	listener := func(rel string) bool { return rel == "network/socket/listener" }
 	for _, t := range targets {
+		// C19 decides routing (the listener's matchers); C14 decides RTSP framing (everything else)
+		if (c.Prop == "C19") != listener(t.rel) {
+			continue
+		}
 		fn := p.Func(t.rel, t.fn)
 		if fn == nil {
 			c.Lost(t.rel+"."+t.fn, "wire reader not found")
@@ -170,7 +183,7 @@ func ruleNoShortRead(c *Ctx) {
 	}
 	// the dispatcher peeks at most 4 bytes (the smallest complete unit is a 4-byte interleaved frame header)
 	rcv := p.Func("service/rtsp", "receive")
-	if rcv != nil {
+	if rcv != nil && c.Prop != "C19" {
 		instrs(rcv, func(ins ssa.Instruction) {
 			cc := callCommon(ins)
 			if cc == nil || cc.StaticCallee() == nil || cc.StaticCallee().Name() != "Peek" {
@@ -454,7 +467,7 @@ func ruleWriteErrorReachesLoop(c *Ctx) {
 	}
 	// receive propagates handler.onPack's error
 	rcv := p.Func("service/rtsp", "receive")
-	if rcv != nil {
+	if rcv != nil && c.Prop != "C19" {
 		ok := false
 		instrs(rcv, func(ins ssa.Instruction) {
 			if ret, isRet := ins.(*ssa.Return); isRet {
@@ -467,4 +480,13 @@ func ruleWriteErrorReachesLoop(c *Ctx) {
 	}
 	_ = types.Typ
 	_ = strings.TrimSpace
+}
+
+func hasAnyPrefix(s string, pre []string) bool {
+	for _, x := range pre {
+		if s == x || strings.HasPrefix(s, x+"/") {
+			return true
+		}
+	}
+	return false
 }
